@@ -180,12 +180,20 @@ def run_stream(pid, stream, seed, n, first, tag):
         lin = open(os.path.join(d, "lean.in"), "rb").read().split(b"\n")
         bad_lines = [i for i in range(max(len(go), len(le))) if (go[i] if i < len(go) else None) != (le[i] if i < len(le) else None)]
         seen_cases = set()
+        # a case that has issued `leftdomain` has set an input no property speaks about (an alignment
+        # value that is not an Alignment, a hand-assembled decoration never completed): from there on a
+        # difference between model and code is recorded, not reported
+        bounds = {c: (a, b) for (c, a, b) in idx}
         for i in bad_lines:
             ln = i + 1
             case = next((c for (c, a, b) in idx if a <= ln <= b), None)
             if case in seen_cases:
                 continue
             seen_cases.add(case)
+            if case is not None and b"leftdomain" in lin[bounds[case][0] - 1:i]:
+                res.setdefault("outside_domain", []).append({"case": case, "line": ln,
+                    "op": lin[i].decode("utf-8", "replace")[:300] if i < len(lin) else ""})
+                continue
             res["divergences"].append({
                 "case": case, "line": ln,
                 "op": lin[i].decode("utf-8", "replace")[:2000] if i < len(lin) else "",
@@ -558,6 +566,7 @@ def main(argv):
             "evaluations": total_cases, "distinct_nontrivial": total_distinct,
             "rule": cfg.get("rule", ""), "protocol_lines_compared": total_lines,
             "divergences": len(divergences), "oracle_violations": len(violations),
+            "differences_outside_every_property_domain": [o for r in runs for o in r.get("outside_domain", [])][:10],
             "known_findings_hit": known_hit, "input_distribution": stats,
             "samples": samples[:3] or [["(no cases generated)"]],
             "broken_obligations": [b[0] for b in broken],
